@@ -175,7 +175,7 @@ def gen_value(rnd, model, t, depth=3):
     if isinstance(t, str):
         return {'str': lambda: rnd.choice(STRINGS), 'int': lambda: rnd.choice(INTS), 'float': lambda: rnd.choice(FLOATS),
                 'bool': lambda: rnd.random() < 0.5, 'boolfix': lambda: rnd.random() < 0.5, 'none': lambda: None,
-                'date': lambda: rnd.choice(DATES), 'path': lambda: pathlib.Path(rnd.choice(['/tmp/x', 'rel/p.txt', '.', 'a b']))}[t]()
+                'date': lambda: rnd.choice(DATES), 'path': lambda: pathlib.Path(rnd.choice(['/tmp/x', 'rel/p.txt', '.', 'a b', '~/notes.txt', '~', '~root/x', '$HOME/x', '../up']))}[t]()
     k = t[0]
     if k == 'list':
         return [gen_value(rnd, model, t[2], depth - 1) for _ in range(rnd.randrange(0, 3 if depth > 0 else 1))]
